@@ -83,6 +83,10 @@ fn s_general(t: &mut Tape, ctx: &mut Ctx) -> Result<(), Failure> {
     one_case(t, ctx, GenCfg::general(), "c01")
 }
 
+fn s_large(t: &mut Tape, ctx: &mut Ctx) -> Result<(), Failure> {
+    one_case(t, ctx, GenCfg::large(), "c01")
+}
+
 fn s_small(t: &mut Tape, ctx: &mut Ctx) -> Result<(), Failure> {
     one_case(t, ctx, GenCfg::small(), "c01")
 }
@@ -90,6 +94,7 @@ fn s_small(t: &mut Tape, ctx: &mut Ctx) -> Result<(), Failure> {
 pub fn streams() -> Vec<Stream> {
     vec![
         Stream { name: "general", kind: Kind::Tape { cases: |t: Tier| t.pick(3_000, 150_000), max_len: 600, f: s_general }, isolate: false },
+        Stream { name: "large", kind: Kind::Tape { cases: |t: Tier| t.pick(300, 25_000), max_len: 2000, f: s_large }, isolate: false },
         Stream { name: "small", kind: Kind::Tape { cases: |t: Tier| t.pick(3_000, 150_000), max_len: 300, f: s_small }, isolate: false },
     ]
 }
@@ -97,7 +102,7 @@ pub fn streams() -> Vec<Stream> {
 pub fn def() -> PropertyDef {
     PropertyDef {
         id: "C01",
-        rule: "programs = type-directed generator (all expression forms, all type constructors, helper / fold / loop functions, aliases, jets with native reference, casts, dbg!, patterns with shadowing) decoded from a proptest choice tape, rendered with varied layout; each program is self-checking (observation holes filled by the reference interpreter under the intended witness assignment, one constant deliberately wrong in ~20 % of the programs); x witness assignments (all when the witness space has <= 4096 points, else intended + boundary neighbours + 8 random) x debug symbols {off, on}. Oracle: reference interpreter verdict == (decode ok && Bit Machine ok on both the satisfied and the decoded program); any rejection / error / panic / CMR mismatch is a violation. evaluations = program x witness x debug executions. Non-trivial = >= 1 witness and >= 1 observation and (both verdicts occur among the assignments or >= 4 distinct expression forms); distinct by digest of the rendered text.",
+        rule: "programs = type-directed generator (all expression forms, all type constructors, helper / fold / loop functions, aliases, jets with native reference, casts, dbg!, patterns with shadowing) decoded from a proptest choice tape (streams general: depth 4 / 70 nodes, small: depth 3 / 40 nodes, large: depth 5 / 220 nodes), rendered with varied layout; each program is self-checking (observation holes filled by the reference interpreter under the intended witness assignment, one constant deliberately wrong in ~20 % of the programs); x witness assignments (all when the witness space has <= 4096 points, else intended + boundary neighbours + 8 random) x debug symbols {off, on}. Oracle: reference interpreter verdict == (decode ok && Bit Machine ok on both the satisfied and the decoded program); any rejection / error / panic / CMR mismatch is a violation. evaluations = program x witness x debug executions. Non-trivial = >= 1 witness and >= 1 observation and (both verdicts occur among the assignments or >= 4 distinct expression forms); distinct by digest of the rendered text.",
         assumptions: &["jets are trusted to implement their specification (closed forms validated against direct jet execution in C13)", "programs larger than the generator's fuel bound are not explored"],
         streams,
         health: &[
